@@ -50,6 +50,11 @@ def field_type(gen, f):
             return "core::option::Option<%s>" % inner
         if sp == "alias":
             return "dv::Opt<%s>" % inner
+        if sp == "paren":
+            return "(Option<%s>)" % inner
+        if sp == "tmpl":
+            idx = getattr(gen, "tmpl_idx", {}).get(id(f))
+            return "$t%d" % idx if idx is not None else "(Option<%s>)" % inner        # (variants: parenthesised)
         return "Option<%s>" % inner
     return gen.rust_type(t)
 
@@ -101,6 +106,9 @@ def render_fields(gen, fields, named, pub):
 
 def render_struct(gen, name, ty):
     fields = ty["fields"]
+    # fields spelled "tmpl" get their type through a `$t:ty` fragment of a macro_rules template
+    tmpl = [f for f in fields if f["t"]["k"] == "opt" and f.get("sp") == "tmpl"]
+    gen.tmpl_idx = {id(f): i for i, f in enumerate(tmpl)}
     src = ["#[derive(desert_macro::BinaryCodec)]"]
     ev = evolution_attr(gen, fields, ty["steps"])
     if ev:
@@ -109,6 +117,10 @@ def render_struct(gen, name, ty):
         src.append("pub struct %s { %s }" % (name, ", ".join(render_fields(gen, fields, True, True))))
     else:
         src.append("pub struct %s;" % name)
+    if tmpl:
+        params = ", ".join("$t%d:ty" % i for i in range(len(tmpl)))
+        args = ", ".join("Option<%s>" % gen.rust_type(f["t"]["e"]) for f in tmpl)
+        src = ["macro_rules! mk_%s { (%s) => { %s } }" % (name, params, "\n".join(src)), "mk_%s!(%s);" % (name, args)]
     names = [name_str(f["n"]) for f in fields]
     mk = ", ".join("%s: dv::ModelType::from_model(&a[%d])" % (n, i + 1) for i, n in enumerate(names))
     to = "".join(", dv::ModelType::to_model(&self.%s)" % n for n in names)
